@@ -445,3 +445,24 @@ ob("native_fen_roundtrip", "chess::verif_chess::fen::native_fen_roundtrip", ["C1
 for _o in OBS:
     if _o["name"] in ("fen_ep_1", "fen_ep_2", "fen_castling_1", "fen_castling_2", "fen_castling_4", "fen_side_1", "fen_step_contract", "fen_tail_contract"):
         _o["props"] = _o["props"] + ["C11"]     # the importer half of the round trip
+
+for _o in OBS:
+    if _o["name"] == "gen_pawn_{i}":
+        _o["props"] = _o["props"] + ["C15"]     # Position::add_unsafe call sites (pawn double push), all 64 squares
+ob("piece_glyphs", "chess::piece::verif_piece::piece_glyphs", ["C20"], "Piece::as_char: 12 distinct diagram glyphs, white outlined / black filled, order K Q R B N P",
+   ["Piece::as_char"], timeout=120)
+ob("fen_board_end_contract", "chess::verif_chess::fen::fen_board_end_contract", ["C17", "C11"],
+   "slice verif_fen_board_end, all scanner end states: board field accepted iff the scanner stands at row 0, col 8", _F17, timeout=600)
+ob("pgn_step_contract", "chess::verif_chess::fen::pgn_step_contract", ["C20"],
+   "slice verif_pgn_step, indices 0..=17: `<n>. ` before every White move, move text, one space", ["Game::get_pgn (loop body)"], timeout=600)
+PROPS["C20"]["slices"] = ["verif_pgn_step"]
+ob("gen_block", "chess::verif_chess::inst::gen_block", ["C01"],
+   "slice verif_gen_block (both loop headers included) vs Piece::get_moves recorder: called exactly once for every square holding an own piece, with that piece; no other square; symbolic board",
+   ["Game::get_moves (generation loops)"], timeout=600)
+ob("filter_block", "chess::verif_chess::inst::filter_block", ["C01", "C03"],
+   "slice verif_filter_block (prologue, loop, compaction, truncate) on three arbitrary candidates vs abstract push/is_targeted/pop: result == sub-multiset the step contract keeps; push/pop strictly paired; untouched when verify_king is false",
+   ["Game::get_moves (legality filter block)"], timeout=600, complete=False, bounded_note="list length fixed at 3; the per-step contract filter_body is unbounded")
+for _k in ["normal", "promotion", "enpassant", "castling_short", "castling_long"]:
+    ob("spec_apply_preserves_wf_" + _k, "chess::verif_chess::spec_apply_preserves_wf_" + _k, ["C02", "C01"],
+       f"rules only ({_k} moves): WF6 and the number of kings are preserved by spec::apply for every move of push's shape precondition (induction step behind `sequences of any length`)",
+       ["spec::apply (lemma)"], timeout=1200)
